@@ -1,6 +1,7 @@
 package transport
 
 import (
+	"errors"
 	"fmt"
 	"io"
 	"os"
@@ -206,10 +207,14 @@ func (t *Standard) Open(a *Args) error {
 
 // Close closes the Standard transport.
 func (t *Standard) Close() error {
+	var sessionErr error
+
 	if t.session != nil {
+		// io.EOF means the peer already closed the session (e.g. the device logged us out); either
+		// way the client below must still be closed or the connection is leaked
 		err := t.session.Close()
-		if err != nil {
-			return err
+		if err != nil && !errors.Is(err, io.EOF) {
+			sessionErr = err
 		}
 
 		t.session = nil
@@ -224,7 +229,7 @@ func (t *Standard) Close() error {
 		t.client = nil
 	}
 
-	return nil
+	return sessionErr
 }
 
 // IsAlive returns true if the Standard transport session attribute is not nil.
